@@ -600,7 +600,7 @@ class HalmosBitVec:
                 )
 
         if abstraction is None:
-            return HalmosBitVec(other / self, size=size)
+            return HalmosBitVec(lhs / rhs, size=size)
 
         return HalmosBitVec(abstraction(lhs, rhs), size=size)
 
